@@ -97,6 +97,18 @@ CHECKS = {
         "drivers": [fsync("fetch", 30, 250, 3, 8), fsync("fork", 15, 100, 2, 4)],
         "assumptions": FS_ASSUMPTIONS,
     },
+    "C13": {
+        "trace_module": "Trace_Query",
+        "mc": [],
+        "drivers": [{"name": "query", "driver": "query", "args": [], "trace_module": "Trace_Query",
+                     "n": {"quick": 12, "thorough": 120}, "procs": {"quick": 6, "thorough": 14},
+                     "tier_args": {"quick": ["queries=50"], "thorough": ["queries=120", "maxlen=24"]}}],
+        "assumptions": FS_ASSUMPTIONS + [
+            "the index queried is the one an honest sync of a generated transaction graph produced (scripts sharing code hash and args prefixes incl. zero-byte extensions, typed and untyped cells, several cells per block); C03 judges that index itself",
+            "range ends are as implemented: script_len_range is inclusive at both ends, the other ranges are [from, to)",
+            "the index does not change between the pages of one query (C17 covers concurrent writers)",
+        ],
+    },
     "C14": {
         "trace_module": "Trace_Difficulty",
         "mc": [{"module": "MC_Difficulty", "cfg": {"quick": "MC_Difficulty_quick.cfg", "thorough": "MC_Difficulty.cfg"},
